@@ -6,5 +6,5 @@
 //@pinfile file=cfgrammar/src/lib/newlinecache.rs sha=2a43dcdddc3cbcac
 //@pinfile file=lrlex/src/lib/lexer.rs sha=9161971e9ed4b91a
 //@pinfile file=lrpar/src/lib/parser.rs sha=fb1aabfb1f1a4952
-//@pinfile file=lrpar/src/lib/diagnostics.rs sha=07de1df51672707a
+//@pinfile file=lrpar/src/lib/diagnostics.rs sha=57a404237fbb1862
 //@use prelude/tail.rs
